@@ -33,7 +33,9 @@ def merge_copyright_lines(copyright_lines: set[str]) -> set[str]:
     # pylint: disable=too-many-locals
     # TODO: Rewrite this function. It's a bit of a mess.
     copyright_in = []
-    for line in copyright_lines:
+    # Sorted, so that a tie between two prefixes is not broken by the order in
+    # which a set happens to be walked.
+    for line in sorted(copyright_lines):
         for pattern in _COPYRIGHT_PATTERNS:
             match = pattern.search(line)
             if match is not None:
